@@ -471,3 +471,84 @@ func bigReferrers(r *vh.Run, i int) {
 	}
 	r.Distinct("big_referrers_cells", fmt.Sprintf("%s/%d/%v%v%v", kind, c.API.Manifest.Limit, pol.Untagged, pol.Dangling, pol.WithSubj))
 }
+
+// tickSequence (C06): the store-wide pass is called the way the ticker calls it - again and again, each time with
+// the time of the call before as "previous tick" - while content comes in late: (a) an unreferenced blob uploaded
+// long (several passes) after the last change of the repository's index, with or without a read request right after
+// it, (b) an unreferenced blob that is pushed again shortly before its grace period ends.  Once the blob is older
+// than the grace period (counted from its last acknowledged push) and a further pass has run, it is gone.  All
+// timing is one-sided: the passes get honest tick times, delays only make the blob older.
+func tickSequence(r *vh.Run, i int) {
+	kind := []vh.StoreKind{vh.Dir, vh.Mem, vh.MemDir}[i%3]
+	variant := []string{"late-upload", "late-upload+read", "re-push", "late-upload+manifest-read"}[(i/3)%4]
+	root := ""
+	if kind != vh.Mem {
+		root = r.TempDir("tick")
+		defer vh.RemoveAll(root)
+	}
+	const G = 300 * time.Millisecond
+	srv := vh.New(vh.Conf(kind, root, vh.Policy{Untagged: true, Dangling: true, WithSubj: true, Grace: G}))
+	defer func() { _ = srv.Close() }()
+	wit := map[string]any{"trial": i, "store": kind.String(), "variant": variant, "grace": G.String()}
+	prev := time.Now().Add(-time.Second)
+	passes := 0
+	pass := func() {
+		cur := time.Now()
+		_ = srv.VerifGCPass(cur, prev)
+		prev = cur
+		passes++
+	}
+	passesFor := func(d time.Duration) {
+		t0 := time.Now()
+		for time.Since(t0) < d {
+			pass()
+			time.Sleep(40 * time.Millisecond)
+		}
+	}
+	pass()
+	cfg := &vh.Blob{Name: "cfg", B: []byte(fmt.Sprintf("tick config %d", i))}
+	cfg.D = vh.DigestOf("sha256", cfg.B)
+	img := vh.MkImage("kept", "sha256", vh.MTImage, cfg, vh.MTConfig, nil, "", "", map[string]string{"n": fmt.Sprint(i)})
+	vh.Do(srv, vh.Req{Method: "POST", URL: "/v2/t/blobs/uploads/?digest=" + cfg.D, Body: cfg.B})
+	if rs := vh.Do(srv, vh.Req{Method: "PUT", URL: "/v2/t/manifests/keep", H: map[string]string{"Content-Type": img.MT}, Body: img.Raw}); rs.Status != 201 {
+		r.Inconclusive(fmt.Sprintf("tickSequence: tagged image not accepted (%d)", rs.Status))
+		return
+	}
+	passesFor(G + 600*time.Millisecond) // the index was last changed long ago, as the passes count
+	x := []byte(fmt.Sprintf("unreferenced content that arrives late %d", i))
+	xd := vh.DigestOf("sha256", x)
+	if rs := vh.Do(srv, vh.Req{Method: "POST", URL: "/v2/t/blobs/uploads/?digest=" + xd, Body: x}); rs.Status != 201 {
+		r.Inconclusive(fmt.Sprintf("tickSequence: upload not accepted (%d)", rs.Status))
+		return
+	}
+	last := time.Now()
+	switch variant {
+	case "late-upload+read":
+		vh.Do(srv, vh.Req{Method: "GET", URL: "/v2/t/tags/list"})
+	case "late-upload+manifest-read":
+		vh.Do(srv, vh.Req{Method: "GET", URL: "/v2/t/manifests/keep", H: map[string]string{"Accept": vh.AcceptAll}})
+	case "re-push":
+		passesFor(G * 3 / 4)
+		if rs := vh.Do(srv, vh.Req{Method: "HEAD", URL: "/v2/t/blobs/" + xd}); rs.Status == 200 {
+			rs := vh.Do(srv, vh.Req{Method: "POST", URL: "/v2/t/blobs/uploads/?digest=" + xd, Body: x})
+			wit["re_push_status"] = rs.Status
+			last = time.Now()
+		}
+	}
+	for time.Since(last) < G+400*time.Millisecond {
+		pass()
+		time.Sleep(40 * time.Millisecond)
+	}
+	pass()
+	r.Count("tick_sequence_trials", 1)
+	r.Count("tick_sequence_passes", passes)
+	r.Distinct("tick_sequence_cells", kind.String()+"/"+variant)
+	wit["passes"] = passes
+	if rs := vh.Do(srv, vh.Req{Method: "HEAD", URL: "/v2/t/blobs/" + xd}); rs.Status == 200 {
+		r.Violation("garbage-survives-the-ticks:"+variant, fmt.Sprintf("%s store, %s: an unreferenced blob whose last push was acknowledged %s ago (grace period %s) is still there after %d store-wide passes, each given the time of the one before as previous tick - the pass no longer visits the repository", kind, variant, time.Since(last).Round(time.Millisecond), G, passes), wit)
+		return
+	}
+	if rs := vh.Do(srv, vh.Req{Method: "GET", URL: "/v2/t/manifests/keep", H: map[string]string{"Accept": vh.AcceptAll}}); rs.Status != 200 {
+		r.Violation("tagged-image-lost:tick-sequence", fmt.Sprintf("the tagged image is gone after the passes (status %d)", rs.Status), wit)
+	}
+}
